@@ -55,7 +55,7 @@ def run(ctx):
         return os.path.join(base, 'g%d.%s' % (counter[0], ext))
 
     def rand_simple():
-        n = rng.randint(1, 5)
+        n = rng.choice([0, 1, 1, 2, 3, 4, 5])      # tiny graphs on purpose: special cases live there
         G = cnfgen.Graph(n)
         for u in range(1, n + 1):
             for v in range(u + 1, n + 1):
@@ -73,7 +73,7 @@ def run(ctx):
         return B
 
     def rand_dag():
-        n = rng.randint(1, 5)
+        n = rng.choice([0, 1, 1, 2, 3, 4, 5])
         D = cnfgen.DirectedGraph(n)
         for v in range(2, n + 1):
             for u in rng.sample(range(1, v), rng.randint(0, min(2, v - 1))):
@@ -143,6 +143,10 @@ def run(ctx):
             charge = None if nv < 1 else {'first': [1] + [0] * (nv - 1), 'zero': [0] * nv, 'one': [1] * nv}[ch]
             return cnfgen.TseitinFormula(G, charge, formula_class=fc)
         yield ['tseitin', ch] + t, tse
+        for ch2 in ('first', 'zero', 'one'):
+            if ch2 != ch:
+                t3, g3 = graph_arg('simple')
+                yield ['tseitin', ch2] + t3, (lambda fc, g=g3, ch=ch2: tse(fc, g, ch))
         k = R(1, 3)
         t, g = garg('simple')
         yield ['kcolor', k] + t, lambda fc, g=g: cnfgen.GraphColoringFormula(g(), k, formula_class=fc)
@@ -274,7 +278,7 @@ def run(ctx):
         return dict(numvar=F.number_of_variables(), labels=list(F.all_variable_labels()), clauses=[list(c) if isinstance(c, (list, tuple)) else c for c in F])
 
     cases = []
-    rounds = 4 if quick else 40
+    rounds = 6 if quick else 40
     for _ in range(rounds):
         for argv, lib in commands():
             cases.append(([str(a) for a in argv], lib))
